@@ -277,7 +277,53 @@ def counters(w, f, st0, ints):
     return outc, inc
 
 
+def capacity_by_cursor(P, f):
+    """Generic second opinion on the capacity clause: all stores through the output pointer lie below
+    start + *capacity + 1 (the documented terminator), proven inductively whatever variables carry the count."""
+    from iosa import cursorw
+    try:
+        r = cursorw.analyse(P, f, f.params[0]["ref"]["name"], None, "*" + f.params[1]["ref"]["name"], {}, maxslack=1)
+    except AnalysisBroken as ex:
+        return None, "cursor analysis not applicable: %s" % ex, None
+    if r["stores"] == 0:
+        return None, "no store through %s seen" % f.params[0]["ref"]["name"], None
+    if r["slack"] is not None:
+        return True, "%d stores, all below %s + *%s + %d (invariants %s)" % (
+            r["stores"], f.params[0]["ref"]["name"], f.params[1]["ref"]["name"], r["slack"], r["invariants"][:3]), None
+    s_, why = r["failures"][0]
+    import re as _re
+    if s_.off is None or s_.size is None or any(_re.search(r"[/*%]|>>|<<", k) for k in list(s_.off[0]) + list((s_.size or ({}, 0))[0])):
+        # the position is computed by arithmetic the linear engine does not follow: no verdict
+        return None, "cursor analysis cannot follow the index arithmetic (%s)" % why, None
+    return False, "%s: %s" % (s_.what, why), s_.node
+
+
 def run_codec(P, chk, rules, spec, enc_tab):
+    r1, r2, r3, r4, r5, r7 = rules
+    opsname, unit, kbits, docname, alphabet, caseins = spec
+    u0 = P.units.get(unit)
+    cw = {}
+    if u0 is not None and opsname in u0.globals:
+        fl0 = ops_fields(P, u0, u0.globals[opsname])
+        for key in ("encode", "decode"):
+            fr = sk(fl0.get(key)) if fl0.get(key) is not None else None
+            fo = u0.funcs.get(fr["ref"]["name"]) if fr is not None and fr.get("k") == "Ref" else None
+            if fo is not None:
+                cw[fo.name] = (fo,) + capacity_by_cursor(P, fo)
+    chk._cw = cw
+    try:
+        _run_codec(P, chk, rules, spec, enc_tab)
+    except AnalysisBroken as ex:
+        # the block structure is not the one the bit-level rules understand; the capacity clause is still judged
+        for name, (fo, okc, det, node) in sorted(cw.items()):
+            if okc is False:
+                chk.site(r5, fo, ir.loc(node) if node is not None else fo.line, "%s: stores stay within the stated capacity" % name, False, det)
+            elif okc:
+                chk.site(r5, fo, fo.line, "%s: stores stay within the stated capacity" % name, True, det)
+        raise
+
+
+def _run_codec(P, chk, rules, spec, enc_tab):
     r1, r2, r3, r4, r5, r7 = rules
     opsname, unit, kbits, docname, alphabet, caseins = spec
     if unit not in P.units:
@@ -344,18 +390,29 @@ def run_codec(P, chk, rules, spec, enc_tab):
                      "return value / consumed count are not the loop counters (ret=%s *%s=%s)" % (
                          L.show(s.user.get("ret")), w.pcap, L.show(s.user.get("capout"))))
             continue
+        if kind == "iteration" and len([r_ for r_ in stores if r_["kind"] == "data" and r_["off"] is not None]) != a:
+            raise AnalysisBroken("%s: %d characters stored on a full iteration while the output counter %s advances by %s: "
+                                 "the counter model of this rule does not fit the code" % (
+                                     encf.name, len([r_ for r_ in stores if r_["kind"] == "data"]), outc, a))
         # R5: every store guarded
         for r in stores:
             what = "%s: buf[%s+%s] = %s" % (encf.name, outc, r["off"], "NUL" if r["kind"] == "nul" else "char")
             if not r.get("guard"):
-                chk.site(r5, encf, r["line"], what, False,
-                         "store not dominated by %s %s *%s on the path (chars=%d bytes=%d)" % (
-                             outc, "<=" if r["kind"] == "nul" else "<", w.pcap, a, b))
+                okc = chk._cw.get(encf.name, (None, None, "", None))
+                if okc[1]:
+                    chk.site(r5, encf, r["line"], what, True, "not by a test of %s, but: %s" % (outc, okc[2]))
+                else:
+                    chk.site(r5, encf, r["line"], what, False,
+                             "store not dominated by %s %s *%s on the path (chars=%d bytes=%d); cursor analysis: %s" % (
+                                 outc, "<=" if r["kind"] == "nul" else "<", w.pcap, a, b, okc[2]))
             else:
                 chk.site(r5, encf, r["line"], what, True, "guarded")
         datas = [r for r in stores if r["kind"] == "data" and r["off"] is not None]
         if kind == "iteration":
             nfull += 1
+            if len([r_ for r_ in datas]) != a:
+                raise AnalysisBroken("%s: %d characters stored on a full iteration while the output counter %s advances by %s: "
+                                     "the counter model of this rule does not fit the code" % (encf.name, len(datas), outc, a))
             ok = (a, b) == (encn, raw)
             chk.site(r4, encf, where, "%s: full iteration" % encf.name, ok,
                      "advances (chars, bytes) by (%d, %d); ops table says (%s, %s)" % (a, b, encn, raw))
@@ -468,8 +525,13 @@ def run_codec(P, chk, rules, spec, enc_tab):
                          "the NUL is not stored exactly once at the returned length")
         for r in stores:
             if not r.get("guard"):
-                chk.site(r5, decf, r["line"], "%s: buf[%s+%s] store" % (decf.name, doutc, r["off"]), False,
-                         "store not dominated by %s %s *%s" % (doutc, "<=" if r["kind"] == "nul" else "<", wd.pcap))
+                okc = chk._cw.get(decf.name, (None, None, "", None))
+                if okc[1]:
+                    chk.site(r5, decf, r["line"], "%s: buf[%s+%s] store" % (decf.name, doutc, r["off"]), True,
+                             "not by a test of %s, but: %s" % (doutc, okc[2]))
+                else:
+                    chk.site(r5, decf, r["line"], "%s: buf[%s+%s] store" % (decf.name, doutc, r["off"]), False,
+                             "store not dominated by %s %s *%s; cursor analysis: %s" % (doutc, "<=" if r["kind"] == "nul" else "<", wd.pcap, okc[2]))
             else:
                 chk.site(r5, decf, r["line"], "%s: buf[%s+%s] store" % (decf.name, doutc, r["off"]), True, "guarded")
             if r["kind"] != "data" or r["off"] is None:
@@ -599,6 +661,8 @@ def check_reverse(P, chk, r2, u, docname, cbname, revname, tb, kbits, caseins, d
     n = 1 << kbits
     rev = u.globals.get(revname)
     ext = (rev or {}).get("t", {}).get("n")
+    if ext is None:
+        raise AnalysisBroken("%s: reverse table %s is not a fixed array of this unit any more" % (docname, revname))
     chk.site(r2, u.file, ir.loc(rev) if rev else 0, "%s: %s covers every byte value" % (docname, revname), ext == 256,
              "extent %s" % ext)
     # the function that fills the table
